@@ -338,6 +338,8 @@ def r_category_spelling(repo, rep, R='R7.4'):
 
 
 def check(repo, rep, tier):
+    from ..lints import r_import_time_language
+    r_import_time_language(repo, rep, 'R7.4', repo.py_files('depccg/printer'))
     rep.rule('R7.1', 'conll head assignment from head flags')
     rep.rule('R7.2', 'head flag polarity of the AUTO-family encoders')
     rep.rule('R7.3', 'sentence / n-best numbering of every loop nest over results')
